@@ -204,12 +204,12 @@ def side_text(v, labels, rng):
 
 def gen_system(rng, kind=None, max_species=3, max_reactions=3, max_cells=8, max_order=4, parent=DEFAULT_SYS,
                units_everywhere=True, moderate=False, chem_p=0.0, allow_parallel=False, p_explicit=0.3,
-               p_units=0.35, non_growing=False):
+               p_units=0.35, non_growing=False, min_env=1):
     """returns (description dict for rdsystem_from_dict, phys, info)"""
     F = Field(rng, p_explicit, moderate)
     pu = p_units if units_everywhere else 0.0
     ns = rng.randint(1, max_species)
-    nenv = rng.choice([1, 1, 2, 2, 3])
+    nenv = max(min_env, rng.choice([1, 1, 2, 2, 3]))
     labels = LABELS[:ns]
     envs = ENVS[:nenv]
     kind = kind or rng.choice(["grid", "graph"])
@@ -252,7 +252,18 @@ def gen_system(rng, kind=None, max_species=3, max_reactions=3, max_cells=8, max_
                 sd["chstt"] = True
             else:
                 ce = [rng.random() < 0.5 for _ in envs]
-                cd = {envs[k]: ce[k] for k in range(len(envs)) if ce[k] or rng.random() < 0.5}
+                if rng.random() < 0.5:
+                    # a "default" entry plus explicit entries, falsy explicit ones under a truthy default included
+                    dflt = rng.random() < 0.65
+                    cd = {}
+                    if rng.random() < 0.5:
+                        cd["default"] = dflt
+                    for k in range(len(envs)):
+                        if ce[k] != dflt or rng.random() < 0.4:
+                            cd[envs[k]] = ce[k]
+                    cd["default"] = dflt           # (position of the key in the dict varies)
+                else:
+                    cd = {envs[k]: ce[k] for k in range(len(envs)) if ce[k] or rng.random() < 0.5}
                 sd["chstt"] = cd
         chem_env.append(ce)
         species.append(sd)
